@@ -80,6 +80,7 @@ theorem step_userCb {xf xi d} (h : WfS a none) (hz : ∀ c ∈ a.clients, c.tok 
     refine ⟨c, hc, hid, (List.Nodup.mem_erase_iff h.tok.pN).mpr ⟨fun he => ?_, hp⟩⟩
     have := hz c hc he
     rw [hid] at this; omega
+  prog := ProgS.of_same (fun _ h => List.mem_append.mpr (Or.inl h)) rfl rfl rfl rfl rfl
 
 end
 
@@ -153,6 +154,7 @@ theorem step_newTok {xf xi d} : StepS xf xi d a a.newTok where
   debtAlive := fun id ha _ => by
     obtain ⟨c, hc, hid, hp⟩ := ha
     exact ⟨c, hc, hid, List.mem_append.mpr (Or.inl hp)⟩
+  prog := ProgS.of_same (fun _ h => h) rfl rfl rfl rfl rfl
 
 end
 
